@@ -163,7 +163,15 @@ def main(ctx):
                 ctx.skip(clause[1:] + " (near-sheet intersection behind the ray; not a valid sequential step)")
                 continue
             cheb = any(t["t"] == "ch" and (t["sx"] != 0 or t["sy"] != 0) for t in e["terms"])
-            ctx.report(clause, {"shape": e["shape"], "refl": e["refl"], "chebyshev_normalised": cheb},
+            cls = {"shape": e["shape"], "refl": e["refl"], "chebyshev_normalised": cheb}
+            if e["shape"] == "conic" and all(c["k"] == "fin" for c in e["d0"]):
+                # quadratic coefficient of the closed-form intersection, a = L^2 + M^2 + (1+k) N^2:
+                # when it is tiny (ray nearly parallel to the axis of a near-paraboloid) the library's
+                # (-b +- sqrt(d)) / 2a loses about |b| / |a| ulps
+                L0, M0, N0 = (float(undy(c)) for c in e["d0"])
+                a = L0 * L0 + M0 * M0 + (1.0 + float(undy(e["kk"]))) * N0 * N0
+                cls["quadratic_coefficient_below_2^-8"] = abs(a) < 2.0 ** -8
+            ctx.report(clause, cls,
                        "surface %d of %s: clause %s fails" % (e["k"], owner[e["id"]], clause),
                        {"lens": owner[e["id"]], "event": {k: e[k] for k in ("k", "p0", "d0", "p", "d", "o0", "o", "n1", "n2", "R", "kk", "shape")}})
     ctx.extra["events"] = len(events)
